@@ -1,7 +1,7 @@
 #!/bin/bash
 # usage: confirm_mutant.sh <ID> <X>   — confirms /tmp/mut/out/<ID>/<X>: demo passes without patch, fails with it, suite passes with it.
 ID="$1"; X="$2"
-SRC=/tmp/mut/out/$ID/$X
+SRC=${SRCROOT:-/tmp/mut/out}/$ID/$X
 WT=/tmp/confirm/wt_${ID}_$X
 OUT=/tmp/confirm/results/${ID}_$X.txt
 export GOFLAGS=-mod=mod GOPROXY=off
@@ -14,9 +14,9 @@ CMD=$(grep -m1 -o 'go test .*' "$SRC/where.txt" | sed 's/[[:space:]]*$//')
 echo "mutant $ID/$X dir=$DIR cmd=$CMD"
 DEMO=$(ls "$SRC" | grep -m1 '_test.go$')
 cp "$SRC/$DEMO" "$DIR/zz_seeded_demo_test.go"
-if timeout 600 bash -c "$CMD" > /tmp/confirm/${ID}_${X}_clean.log 2>&1; then echo "DEMO_WITHOUT_PATCH=pass"; else echo "DEMO_WITHOUT_PATCH=FAIL"; fi
+if timeout 900 bash -o pipefail -c "$CMD" > /tmp/confirm/${ID}_${X}_clean.log 2>&1; then echo "DEMO_WITHOUT_PATCH=pass"; else echo "DEMO_WITHOUT_PATCH=FAIL"; fi
 if git apply "$SRC/patch.diff"; then echo "PATCH_APPLIES=yes"; else echo "PATCH_APPLIES=NO"; fi
-if timeout 600 bash -c "$CMD" > /tmp/confirm/${ID}_${X}_patched.log 2>&1; then echo "DEMO_WITH_PATCH=pass(BAD)"; else echo "DEMO_WITH_PATCH=fail(expected)"; fi
+if timeout 900 bash -o pipefail -c "$CMD" > /tmp/confirm/${ID}_${X}_patched.log 2>&1; then echo "DEMO_WITH_PATCH=pass(BAD)"; else echo "DEMO_WITH_PATCH=fail(expected)"; fi
 rm -f "$DIR/zz_seeded_demo_test.go"
 if go build ./... > /tmp/confirm/${ID}_${X}_build.log 2>&1; then echo "BUILD=ok"; else echo "BUILD=FAIL"; fi
 if go test -vet=off -count=1 $(go list ./... | grep -v /pkg/replication$) > /tmp/confirm/${ID}_${X}_suite.log 2>&1; then echo "SUITE_NONREPL=pass"; else echo "SUITE_NONREPL=FAIL"; fi
